@@ -104,7 +104,13 @@ impl FileConfig {
                 "interface" => config.interface = value.as_str().unwrap().to_string(),
                 "batch_size" => config.batch_size = checked_int("batch_size", value),
                 "seed" => {
-                    let val = value.as_str().unwrap().to_string();
+                    // A hex seed made up of decimal digits only (or one like "12e4...") is typed
+                    // as a number by YAML; its text is still the seed.
+                    let val = match value {
+                        Yaml::String(s) | Yaml::Real(s) => s.clone(),
+                        // (the value is deliberately not printed: it is the secret)
+                        _ => panic!("seed value invalid; 'seed' must be a hex string"),
+                    };
                     config.seed = HEX
                         .decode(val.as_bytes())
                         .expect("seed value invalid; 'seed' must be a valid hex value");
